@@ -296,6 +296,7 @@ func TestC08(t *testing.T) {
 // ---- C08 (part B): a killed extract leaves the destination alone / can be re-run in place ----
 
 func runC08Extract(c *fw.Case) {
+	c.Probe("process-level-case (real desync binary)")
 	pb, err := newProcBlob(c, false)
 	if err != nil {
 		c.HarnessError("%v", err)
